@@ -574,7 +574,7 @@ def execute(scenario, chooser):
                     return
                 tag = cur.tag
                 state['seen'] = state.get('seen', 0) + 1
-                if state['seen'] > 3000:        # target never reached
+                if state['seen'] > 1200:        # target never reached
                     st['trigger'] = True
                     return
                 if tuple(tag[:2]) == tuple(want):
